@@ -370,7 +370,7 @@ theorem unauthenticated_gets_no_notification (cfg : Config) (hauth : cfg.authLoa
     · rw [hnone] at hu'; cases hu'
 
 example : ∃ u ∈ unitsOf exCfg exS exChange, ∃ p, findPeer u.pre.st.peers 3 = some p ∧ p.user = none := by
-  refine ⟨.req exX 1 _, List.mem_cons_self .., ?_⟩
+  refine ⟨.req exX 1 _, unitsOf_single exCfg exS 1 _ {} (by decide +kernel), ?_⟩
   obtain ⟨p, hp, hu⟩ := userCheck_sound (s := exS) (c := 3) (a := false) (by decide +kernel)
   exact ⟨p, hp, by simpa using hu⟩
 
@@ -441,7 +441,7 @@ theorem unauthenticated_sees_nothing_protected (cfg : Config) (hauth : cfg.authL
       exact ⟨r, congrArg Prod.fst h1⟩
 
 example : ∃ u ∈ unitsOf exCfg exS (.message 3 (some exSet) {}), ∃ p, findPeer u.pre.st.peers 3 = some p ∧ p.user = none := by
-  refine ⟨.req exX 3 exSet, List.mem_cons_self .., ?_⟩
+  refine ⟨.req exX 3 exSet, unitsOf_single exCfg exS 3 _ {} (by decide +kernel), ?_⟩
   obtain ⟨p, hp, hu⟩ := userCheck_sound (s := exS) (c := 3) (a := false) (by decide +kernel)
   exact ⟨p, hp, by simpa using hu⟩
 
